@@ -8,6 +8,7 @@ import collections
 import importlib
 import json
 import os
+import signal
 import sys
 import time
 import zlib
@@ -80,6 +81,17 @@ class Violation(Exception):
     pass
 
 
+class CaseTimeout(BaseException):
+    pass
+
+
+CASE_TIMEOUT = int(os.environ.get("VERIF_CASE_TIMEOUT", "120"))
+
+
+def _on_alarm(signum, frame):
+    raise CaseTimeout()
+
+
 class HarnessError(Exception):
     pass
 
@@ -97,7 +109,15 @@ def evaluate(sub, spec, known, stats):
             stats.excluded_known[e["id"]] += 1
             return Out(ok=True, nontrivial=False, classes=["excluded_known:" + e["id"]])
     try:
-        out = sub.run(spec)
+        signal.signal(signal.SIGALRM, _on_alarm)
+        signal.alarm(CASE_TIMEOUT)
+        try:
+            out = sub.run(spec)
+        finally:
+            signal.alarm(0)
+    except CaseTimeout:
+        sys.stderr.write("CASE-TIMEOUT %s\n" % json.dumps(spec, default=str)[:2000])
+        return Out(ok=True, nontrivial=False, classes=["case_timeout"])
     except (KeyboardInterrupt, SystemExit):
         raise
     except HarnessError:
